@@ -19,6 +19,9 @@ class WebsocketsTransport(AbstractMessagingTransport):
 
     async def consumer_handler(self, websocket):
         async for message in websocket:
+            if not isinstance(message, (bytes, bytearray)):
+                continue  # a text message is not an RSocket frame: skipped, as on the other websocket transports
+
             async for frame in self._frame_parser.receive_data(message, header_length=0):
                 await self._incoming_frame_queue.put(frame)
 
